@@ -132,121 +132,89 @@ Lemma Forall_refresh_done : forall (P : bytes * entry -> Prop) s now key,
     Forall P (m_store s) -> Forall P (m_store (m_refresh_done s now key)).
 Proof.
   intros P s now key Hst HF. unfold m_refresh_done. destruct (mfind key (m_store s)) as [e|] eqn:F; [|assumption].
-  destruct (e_deadline e <=? now); cbn [m_store]; [apply Forall_mremove; assumption|].
   destruct (e_refreshing e); cbn [m_store]; [|assumption].
   apply Forall_mput; [|assumption].
   destruct (mfind_Forall P key _ e HF F) as [k' [Pk Hk]]. apply bytes_eqb_eq in Hk. subst k'. auto.
 Qed.
 
-(* ------------------------------------------------------------------ A. the two deadline representations *)
-(* every entry of a reachable store: deadlineNano is unset or equals Deadline; Deadline is not before the epoch *)
-Definition dn_ok (p : bytes * entry) : Prop :=
-  (e_dnano (snd p) = 0 \/ e_dnano (snd p) = e_deadline (snd p)) /\ 0 <= e_deadline (snd p).
+Lemma refresh_done_cfg : forall s now key, m_cfg (m_refresh_done s now key) = m_cfg s.
+Proof. intros. unfold m_refresh_done. destruct (mfind _ _); [|reflexivity]. destruct (e_refreshing e); reflexivity. Qed.
 
-(* configuration values in their documented domain: fixed TTLs and the stale window are not negative *)
-Definition fixed_nonneg (c : cfg) : Prop := Forall (fun p => 0 <= snd p) (c_fixed c) /\ 0 <= c_window c.
+(* ------------------------------------------------------------------ A. the two deadline representations *)
+(* every entry of a reachable store: deadlineNano equals Deadline *)
+Definition dn_ok (p : bytes * entry) : Prop := e_dnano (snd p) = e_deadline (snd p).
+
+(* configuration values in their documented domain: the stale window is not negative *)
+Definition cfg_wf (c : cfg) : Prop := 0 <= c_window c.
 
 Lemma normalize_fixed : forall c, c_fixed (normalize c) = c_fixed c.
 Proof. intros. unfold normalize. destruct (_ && _); reflexivity. Qed.
+Lemma effective_fixed : forall c, c_fixed (effective c) = c_fixed c.
+Proof. intros. unfold effective. destruct (_ && _); reflexivity. Qed.
 
-Lemma normalize_wf : forall c, fixed_nonneg c -> fixed_nonneg (normalize c).
+Lemma normalize_wf : forall c, cfg_wf c -> cfg_wf (normalize c).
 Proof.
-  intros c [H1 H2]. unfold fixed_nonneg. rewrite normalize_fixed. split; [assumption|].
-  unfold normalize. destruct (_ && _); cbn; [unfold default_optimistic_ttl; lia | assumption].
+  intros c H. unfold cfg_wf, normalize in *. destruct (_ && _); cbn; [unfold default_optimistic_ttl; lia | assumption].
 Qed.
 
-(* well-formed histories: instants since the epoch, TTLs as read from a reply (uint32), fixed TTLs not negative *)
 Definition op_wf (t : timed) : Prop :=
-  0 <= fst t /\
-  match snd t with
-  | Insert _ _ _ _ _ _ _ _ ttl => 0 <= ttl
-  | Reload c | Reuse c => fixed_nonneg c
-  | _ => True
-  end.
-Definition history_wf (c : cfg) (h : list timed) : Prop := fixed_nonneg c /\ Forall op_wf h.
+  match snd t with Reload c | Reuse c => cfg_wf c | _ => True end.
+Definition history_wf (c : cfg) (h : list timed) : Prop := cfg_wf c /\ Forall op_wf h.
 
-Lemma eff_ttl_nonneg : forall nans ttl, 0 <= ttl -> 0 <= eff_ttl nans ttl.
-Proof.
-  intros. unfold eff_ttl, min_firefox_cache_ttl, max_ttl.
-  destruct (N.eqb nans 0); cbv zeta; match goal with |- context [if ?c then _ else _] => destruct c eqn:E end; lia.
-Qed.
-
-Lemma fixed_exact_nonneg : forall fixed host f, Forall (fun p => 0 <= snd p) fixed -> fixed_ttl_exact fixed host = Some f -> 0 <= f.
-Proof.
-  intros fixed host f HF H. unfold fixed_ttl_exact in H.
-  destruct (find _ fixed) eqn:F; [|discriminate]. inversion H; subst. apply find_some in F.
-  rewrite Forall_forall in HF. apply (HF p). tauto.
-Qed.
-
-Lemma m_deadline_nonneg : forall fixed host ttl now,
-    Forall (fun p => 0 <= snd p) fixed -> 0 <= ttl -> 0 <= now -> 0 <= m_deadline fixed host ttl now.
-Proof.
-  intros. unfold m_deadline. destruct (fixed_ttl_exact fixed (strip_dot host)) eqn:F.
-  - apply fixed_exact_nonneg in F; [|assumption]. unfold sec. nia.
-  - unfold sec. nia.
-Qed.
-
-Definition st_ok (s : mstate) : Prop := Forall dn_ok (m_store s) /\ fixed_nonneg (m_cfg s).
+Definition st_ok (s : mstate) : Prop := Forall dn_ok (m_store s) /\ cfg_wf (m_cfg s).
 
 Lemma dn_ok_touched : forall k e e', dn_ok (k, e) -> touched e e' -> dn_ok (k, e').
-Proof. unfold dn_ok, touched. cbn. intros k e e' [H1 H2] (A1 & A2 & A3 & A4 & A5). rewrite A2, A4. auto. Qed.
+Proof. unfold dn_ok, touched. cbn. intros k e e' H (A1 & A2 & A3 & A4 & A5). rewrite A2, A4. auto. Qed.
 
 Lemma st_ok_step : forall u s t, st_ok s -> op_wf t -> st_ok (fst (m_step u s (fst t) (snd t))).
 Proof.
-  intros u s [now o] [HF HC] [Hnow Hop]. cbn [fst snd] in *. destruct o; cbn [m_step fst].
-  - (* insert *)
-    unfold m_insert. destruct (resp_ok && negb is_ip); [|split; assumption].
+  intros u s [now o] [HF HC] Hop. unfold op_wf in Hop. cbn [fst snd] in *. destruct o; cbn [m_step fst].
+  - unfold m_insert. destruct (resp_ok && negb is_ip); [|split; assumption].
     split; cbn [m_store m_cfg]; [|assumption].
-    apply Forall_mput; [|assumption]. unfold dn_ok. cbn. split; [left; reflexivity|].
-    apply m_deadline_nonneg; [exact (proj1 HC) | apply eff_ttl_nonneg; exact Hop | exact Hnow].
-  - (* lookup *)
-    split.
+    apply Forall_mput; [|assumption]. unfold dn_ok. reflexivity.
+  - split.
     + apply Forall_lookup; [apply dn_ok_touched | assumption].
     + destruct (m_lookup_shape s now (key_of name qt sc)) as [E _ | E _ | e e' _ _ E _]; rewrite E; assumption.
-  - (* janitor *)
-    split; [apply Forall_janitor; assumption | exact HC].
-  - (* reload *)
-    split; cbn [m_store m_cfg].
-    + apply Forall_forall. intros [k e] Hin. apply in_map_iff in Hin. destruct Hin as [[k0 e0] [Heq Hin]].
-      inversion Heq; subst. rewrite Forall_forall in HF. specialize (HF _ Hin). unfold dn_ok in *. cbn in *.
-      destruct HF as [HD H0]. split; [|assumption]. destruct (e_dnano e0 =? 0) eqn:E; [right; reflexivity|].
-      destruct HD; [lia | right; assumption].
-    + apply normalize_wf. exact Hop.
-  - (* reuse *)
-    split; cbn [m_store m_cfg]; [assumption|]. apply normalize_wf. exact Hop.
-  - (* refresh done *)
-    split.
-    + apply Forall_refresh_done; [|assumption]. intros k e H. exact H.
-    + unfold m_refresh_done. destruct (mfind _ _); [|assumption]. destruct (_ <=? _); [assumption|]. destruct (e_refreshing e); assumption.
-  - (* probe *)
-    split; assumption.
+  - split; [apply Forall_janitor; assumption | exact HC].
+  - split; cbn [m_store m_cfg]; [|apply normalize_wf; exact Hop].
+    apply Forall_forall. intros [k e] Hin. apply in_map_iff in Hin. destruct Hin as [[k0 e0] [Heq Hin]].
+    inversion Heq; subst. rewrite Forall_forall in HF. specialize (HF _ Hin). unfold dn_ok in *. cbn in *.
+    destruct (e_dnano e0 =? 0); [reflexivity | assumption].
+  - split; cbn [m_store m_cfg]; [assumption | apply normalize_wf; exact Hop].
+  - split; [apply Forall_refresh_done; [|assumption]; intros k e H; exact H | rewrite refresh_done_cfg; assumption].
+  - split; assumption.
+Qed.
+
+Lemma run_from_cons_fst : forall u s now o rest,
+    fst (m_run_from u s ((now, o) :: rest)) = fst (m_run_from u (fst (m_step u s now o)) rest).
+Proof.
+  intros. cbn [m_run_from]. destruct (m_step u s now o) as [s1 ob]. cbn [fst].
+  destruct (m_run_from u s1 rest) as [s2 obs]. reflexivity.
 Qed.
 
 Lemma st_ok_run_from : forall u h s, st_ok s -> Forall op_wf h -> st_ok (fst (m_run_from u s h)).
 Proof.
-  induction h as [|[now o] rest IH]; intros s Hs Hh; cbn [m_run_from]; [assumption|].
-  inversion Hh; subst.
-  pose proof (st_ok_step u s (now, o) Hs H1) as Hs1. cbn [fst snd] in Hs1.
-  destruct (m_step u s now o) as [s1 ob]. cbn [fst] in Hs1.
-  specialize (IH s1 Hs1 H2). destruct (m_run_from u s1 rest) as [s2 obs]. exact IH.
+  induction h as [|[now o] rest IH]; intros s Hs Hh; [assumption|].
+  inversion Hh; subst. rewrite run_from_cons_fst. apply IH; [|assumption].
+  exact (st_ok_step u s (now, o) Hs H1).
 Qed.
 
 Lemma st_ok_run : forall c h, history_wf c h -> st_ok (fst (m_run c h)).
 Proof.
   intros c h [Hc Hh]. unfold m_run. apply st_ok_run_from; [|assumption].
-  split; cbn; [constructor|]. apply normalize_wf. assumption.
+  split; cbn; [constructor | apply normalize_wf; assumption].
 Qed.
 
 (* a served lookup names an entry of the store, with that entry's answer, and the entry is servable now *)
 Lemma lookup_served_live : forall s now key ans ttl r,
-    st_ok s -> 0 <= now ->
+    st_ok s ->
     snd (m_lookup s now key) = ObLook true ans ttl r ->
     exists e, mfind key (m_store s) = Some e /\ ans = e_ans e /\ servable (m_cfg s) (e_deadline e) now <> None.
 Proof.
-  intros s now key ans ttl r [HF [_ HW]] Hnow H. unfold m_lookup in H.
+  intros s now key ans ttl r [HF HW] H. unfold cfg_wf in HW. unfold m_lookup in H.
   destruct (mfind key (m_store s)) as [e0|] eqn:F; [|cbn in H; discriminate].
   exists e0. split; [reflexivity|].
-  destruct (mfind_Forall dn_ok key _ e0 HF F) as [k' [[HD H0] _]]. cbn [snd] in HD, H0.
+  destruct (mfind_Forall dn_ok key _ e0 HF F) as [k' [HD _]]. unfold dn_ok in HD. cbn [snd] in HD.
   cbv zeta in H. unfold servable.
   change (e_deadline (with_last e0 now)) with (e_deadline e0) in H.
   destruct (now <? e_deadline e0) eqn:Efresh.
@@ -262,11 +230,11 @@ Proof.
     unfold in_window. rewrite Eopt. cbn [andb].
     destruct (c_window (m_cfg s) =? 0) eqn:Ew; [cbn; discriminate|]. cbn [orb].
     assert (now <= e_deadline e0 + c_window (m_cfg s) * sec); [|destruct (now <=? _) eqn:E3; [discriminate|lia]].
-    apply andb_false_iff in E2. unfold sec in *. destruct E2 as [E2|E2]; destruct HD as [HD|HD]; rewrite ?HD in *; try nia.
+    apply andb_false_iff in E2. rewrite HD in E2. destruct E2 as [E2|E2]; lia.
 Qed.
 
 Lemma never_after_window_proof : forall c h now key ans ttl r,
-    history_wf c h -> 0 <= now ->
+    history_wf c h ->
     let s := fst (m_run c h) in
     snd (m_lookup s now key) = ObLook true ans ttl r ->
     exists e, mfind key (m_store s) = Some e /\ ans = e_ans e /\ servable (m_cfg s) (e_deadline e) now <> None.
@@ -293,12 +261,43 @@ Proof.
   destruct (e_refreshing e); cbn; eauto.
 Qed.
 
+Lemma stale_within_window_proof : forall c h now key e,
+    history_wf c h ->
+    mfind key (m_store (fst (m_run c h))) = Some e ->
+    servable (m_cfg (fst (m_run c h))) (e_deadline e) now = Some Stale ->
+    exists ttl r, snd (m_lookup (fst (m_run c h)) now key) = ObLook true (e_ans e) ttl r.
+Proof.
+  intros c h now key e Hwf F S. destruct (st_ok_run c h Hwf) as [HF _].
+  destruct (mfind_Forall dn_ok key _ e HF F) as [k' [HD _]].
+  apply stale_within_window_partial_proof; assumption.
+Qed.
+
 (* ------------------------------------------------------------------ TTL of the in-place fill *)
 Lemma fill_ttl_truthful_proof : forall d now, now < d -> ttl_ok d now (ttl_from_deadline d now) = true.
 Proof.
   intros d now H. unfold ttl_ok, ttl_bound, ttl_from_deadline, slack.
   destruct (d <=? now) eqn:E; [lia|].
   destruct ((d - now) / sec <? 1) eqn:E2; lia.
+Qed.
+
+(* ------------------------------------------------------------------ F. fixed_domain_ttl *)
+Lemma find_map_lower : forall (l : list (bytes * Z)) h,
+    match find (fun p => bytes_eqb (fst p) h) (map (fun p => (lower (fst p), snd p)) l) with Some p => Some (snd p) | None => None end
+    = match find (fun p => bytes_eqb (lower (fst p)) h) l with Some p => Some (snd p) | None => None end.
+Proof.
+  induction l as [|[k v] rest IH]; intros h; [reflexivity|]. cbn [map find fst snd].
+  destruct (bytes_eqb (lower k) h); [reflexivity | apply IH].
+Qed.
+
+Lemma fixed_model_ci : forall fixed host, fixed_ttl_model fixed host = fixed_ttl_ci fixed host.
+Proof.
+  intros. unfold fixed_ttl_model, fixed_ttl_ci, parse_fixed. rewrite <- map_rev. apply find_map_lower.
+Qed.
+
+Lemma fixed_ttl_proof : forall fixed host ttl now, m_deadline fixed host ttl now = spec_deadline fixed host ttl now.
+Proof.
+  intros. unfold m_deadline, spec_deadline. rewrite fixed_model_ci.
+  destruct (fixed_ttl_ci fixed (strip_dot host)); reflexivity.
 Qed.
 
 (* ------------------------------------------------------------------ B. scope: an entry holds what was last inserted under its own key *)
@@ -319,7 +318,7 @@ Definition step_acc (c : cfg) (o : op) (now : Z) (key : bytes) (acc : option (Z 
   match o with
   | Insert name qt sc rname is_ip resp_ok nans ans ttl =>
       if resp_ok && negb is_ip && bytes_eqb (key_of name qt sc) key
-      then Some (ans, m_deadline (c_fixed (normalize c)) rname (eff_ttl nans ttl) now) else acc
+      then Some (ans, spec_deadline (c_fixed (effective c)) rname (eff_ttl nans ttl) now) else acc
   | _ => acc
   end.
 
@@ -329,13 +328,6 @@ Proof. intros. destruct o; cbn [last_insert step_cfg step_acc]; try reflexivity.
 
 Lemma cfg_after_cons : forall c now o rest, cfg_after c ((now, o) :: rest) = cfg_after (step_cfg c o) rest.
 Proof. intros. destruct o; reflexivity. Qed.
-
-Lemma run_from_cons_fst : forall u s now o rest,
-    fst (m_run_from u s ((now, o) :: rest)) = fst (m_run_from u (fst (m_step u s now o)) rest).
-Proof.
-  intros. cbn [m_run_from]. destruct (m_step u s now o) as [s1 ob]. cbn [fst].
-  destruct (m_run_from u s1 rest) as [s2 obs]. reflexivity.
-Qed.
 
 Lemma li_step : forall key u s now o c acc,
     m_cfg s = normalize c -> Forall (li_ok key acc) (m_store s) ->
@@ -349,7 +341,7 @@ Proof.
     destruct (bytes_eqb (key_of name qt sc) key) eqn:Ek.
     + apply bytes_eqb_eq in Ek. rewrite Ek.
       unfold mput. constructor; [|apply Forall_mremove_same].
-      unfold li_ok. cbn. intros _. rewrite Hc. reflexivity.
+      unfold li_ok. cbn. intros _. rewrite Hc, fixed_ttl_proof, normalize_fixed, effective_fixed. reflexivity.
     + apply Forall_mput; [|assumption]. unfold li_ok. cbn [fst]. intros Hk. rewrite Hk in Ek. discriminate.
   - (* lookup *)
     split.
@@ -366,7 +358,7 @@ Proof.
   - (* refresh done *)
     split.
     + apply Forall_refresh_done; [|exact HF]. intros k e H. exact H.
-    + unfold m_refresh_done. destruct (mfind _ _); [|assumption]. destruct (_ <=? _); [assumption|]. destruct (e_refreshing e); assumption.
+    + rewrite refresh_done_cfg. assumption.
   - (* probe *)
     split; assumption.
 Qed.
@@ -382,42 +374,17 @@ Proof.
 Qed.
 
 Lemma served_only_live_proof : forall c h now key ans ttl r,
-    history_wf c h -> 0 <= now ->
+    history_wf c h ->
     snd (m_lookup (fst (m_run c h)) now key) = ObLook true ans ttl r ->
     exists d, last_insert c h key None = Some (ans, d)
               /\ servable (normalize (cfg_after c h)) d now <> None.
 Proof.
-  intros c h now key ans ttl r Hwf Hnow H.
-  destruct (never_after_window_proof c h now key ans ttl r Hwf Hnow H) as [e [F [Ha Hs]]].
+  intros c h now key ans ttl r Hwf H.
+  destruct (never_after_window_proof c h now key ans ttl r Hwf H) as [e [F [Ha Hs]]].
   unfold m_run in *.
   destruct (last_insert_run key (universe h) h c (m_init c) None eq_refl (Forall_nil _)) as [HL HC].
   destruct (mfind_Forall _ key _ e HL F) as [k' [Hli Hk]]. unfold li_ok in Hli. cbn [fst snd] in Hli.
   exists (e_deadline e). split; [rewrite (Hli Hk), Ha; reflexivity|]. rewrite <- HC. exact Hs.
-Qed.
-
-(* ------------------------------------------------------------------ F. fixed_domain_ttl *)
-Definition case_consistent (fixed : list (bytes * Z)) (host : bytes) : Prop :=
-  forall k v, In (k, v) fixed -> lower k = lower host -> k = host.
-
-Lemma bytes_eqb_neq : forall a b, a <> b -> bytes_eqb a b = false.
-Proof. intros a b H. destruct (bytes_eqb a b) eqn:E; [apply bytes_eqb_eq in E; contradiction|reflexivity]. Qed.
-
-Lemma fixed_exact_ci : forall fixed host, case_consistent fixed host -> fixed_ttl_exact fixed host = fixed_ttl_ci fixed host.
-Proof.
-  induction fixed as [|[k v] rest IH]; intros host HC; [reflexivity|].
-  unfold fixed_ttl_exact, fixed_ttl_ci in *. cbn [find fst].
-  destruct (bytes_eqb k host) eqn:E.
-  - apply bytes_eqb_eq in E. subst. rewrite bytes_eqb_refl. reflexivity.
-  - assert (lower k <> lower host) as Hn.
-    { intros Hl. apply (HC k v) in Hl; [|left; reflexivity]. subst. rewrite bytes_eqb_refl in E. discriminate. }
-    rewrite (bytes_eqb_neq _ _ Hn). apply IH. intros k' v' Hin. apply (HC k' v'). right. assumption.
-Qed.
-
-Lemma fixed_ttl_partial_proof : forall fixed host ttl now,
-    case_consistent fixed (strip_dot host) -> m_deadline fixed host ttl now = spec_deadline fixed host ttl now.
-Proof.
-  intros. unfold m_deadline, spec_deadline. rewrite (fixed_exact_ci _ _ H).
-  destruct (fixed_ttl_ci fixed (strip_dot host)); reflexivity.
 Qed.
 
 (* ------------------------------------------------------------------ E. one refresh per cycle *)
@@ -486,7 +453,7 @@ Proof.
   - apply Forall_lookup; [apply flag_set_touched | assumption].
   - apply Forall_janitor. assumption.
   - assumption.
-  - unfold m_refresh_done. destruct (mfind _ _) eqn:F; [|assumption]. destruct (_ <=? _); cbn [m_store]; [apply Forall_mremove; assumption|].
+  - unfold m_refresh_done. destruct (mfind _ _) eqn:F; [|assumption].
     destruct (e_refreshing e); [|assumption]. cbn [m_store]. apply Forall_mput; [|assumption].
     unfold flag_set. cbn [fst]. intros Hk. rewrite Hk in Hr. discriminate.
   - assumption.
@@ -526,60 +493,20 @@ Qed.
 
 (* ------------------------------------------------------------------ witnesses *)
 Definition w_name : bytes := [97; 46]%N.                       (* "a." *)
-Definition w_cfg : cfg := {| c_opt := true; c_window := 60; c_max := 0; c_fixed := [] |}.
+Definition w_cfg : cfg := {| c_opt := true; c_window := 60; c_max := 0; c_fixed := [([65]%N, 2)] |}.   (* fixed TTL for "A" *)
 Definition w_t0 : Z := 1000 * sec.
-Definition w_hist : list timed := [(w_t0, Insert w_name 1 ScNone w_name false true 1 7 2)].
-
-Lemma stale_within_window_refuted_proof :
-  exists c h now key e,
-    history_wf c h /\ mfind key (m_store (fst (m_run c h))) = Some e
-    /\ servable (m_cfg (fst (m_run c h))) (e_deadline e) now = Some Stale
-    /\ snd (m_lookup (fst (m_run c h)) now key) = ObLook false (-1) 0 false.
-Proof.
-  exists w_cfg, w_hist, (w_t0 + 5 * sec), (key_of w_name 1 ScNone).
-  eexists. split; [|split; [vm_compute; reflexivity | split; vm_compute; reflexivity]].
-  split; [split; [constructor | vm_compute; discriminate]|].
-  constructor; [|constructor]. split; cbn; [vm_compute; discriminate | lia].
-Qed.
-
-Lemma fixed_ttl_refuted_proof :
-  exists fixed host ttl now, m_deadline fixed host ttl now <> spec_deadline fixed host ttl now.
-Proof. exists [([97]%N, 1)], [65]%N, 300, 0. vm_compute. discriminate. Qed.
-
-(* the same through a history: a mixed-case reply name keeps being served after the configured fixed TTL has run out *)
-Definition w_cfg_fixed : cfg := {| c_opt := false; c_window := 60; c_max := 0; c_fixed := [([97]%N, 1)] |}.
-Definition w_hist_fixed : list timed := [(w_t0, Insert [65; 46]%N 1 ScNone [65; 46]%N false true 1 7 300)].
-Lemma fixed_ttl_served_refuted_proof :
-  snd (m_lookup (fst (m_run w_cfg_fixed w_hist_fixed)) (w_t0 + 2 * sec) (key_of [97; 46]%N 1 ScNone)) = ObLook true 7 298 false
-  /\ servable (effective w_cfg_fixed) (spec_deadline (c_fixed w_cfg_fixed) [65; 46]%N 300 w_t0) (w_t0 + 2 * sec) = None.
-Proof. split; vm_compute; reflexivity. Qed.
 
 Lemma nonvacuous_proof :
   let h := [(w_t0, Insert w_name 1 ScNone w_name false true 1 7 300);
             (w_t0 + sec, Lookup w_name 1 ScNone);
             (w_t0 + 2 * sec, Reload w_cfg);
-            (w_t0 + 3 * sec, Insert [65; 46]%N 1 ScNone w_name false true 1 8 2)] in
+            (w_t0 + 3 * sec, Insert [65; 46]%N 1 ScNone w_name false true 1 8 300)] in
   history_wf w_cfg h
-  /\ snd (m_lookup (fst (m_run w_cfg h)) (w_t0 + 4 * sec) (key_of w_name 1 ScNone)) = ObLook true 8 1 false
+  /\ snd (m_lookup (fst (m_run w_cfg h)) (w_t0 + 4 * sec) (key_of w_name 1 ScNone)) = ObLook true 8 2 false
   /\ last_insert w_cfg h (key_of w_name 1 ScNone) None = Some (8, w_t0 + 5 * sec)
-  /\ snd (m_lookup (fst (m_run w_cfg h)) (w_t0 + 6 * sec) (key_of w_name 1 ScNone)) = ObLook false (-1) 0 false.
+  /\ snd (m_lookup (fst (m_run w_cfg h)) (w_t0 + 6 * sec) (key_of w_name 1 ScNone)) = ObLook true 8 2 true
+  /\ snd (m_lookup (fst (m_run w_cfg h)) (w_t0 + 66 * sec) (key_of w_name 1 ScNone)) = ObLook false (-1) 0 false.
 Proof.
-  cbv zeta. split; [|split; [vm_compute; reflexivity | split; vm_compute; reflexivity]].
-  split; [split; [constructor | vm_compute; discriminate]|].
-  repeat constructor; cbn; try (vm_compute; discriminate); try lia.
-Qed.
-
-Lemma fixed_ttl_full_refuted_proof :
-  ~ (forall fixed host ttl now, m_deadline fixed host ttl now = spec_deadline fixed host ttl now).
-Proof. intros H. destruct fixed_ttl_refuted_proof as (f & ho & t & n & Hne). apply Hne. apply H. Qed.
-
-Lemma stale_within_window_full_refuted_proof :
-  ~ (forall c h now key e,
-        history_wf c h ->
-        mfind key (m_store (fst (m_run c h))) = Some e ->
-        servable (m_cfg (fst (m_run c h))) (e_deadline e) now = Some Stale ->
-        exists ttl r, snd (m_lookup (fst (m_run c h)) now key) = ObLook true (e_ans e) ttl r).
-Proof.
-  intros H. destruct stale_within_window_refuted_proof as (c & h & now & key & e & Hwf & F & S & L).
-  destruct (H c h now key e Hwf F S) as (t & r & L'). rewrite L in L'. discriminate.
+  cbv zeta. split; [|repeat split; vm_compute; reflexivity].
+  split; [vm_compute; discriminate|]. repeat constructor; vm_compute; discriminate.
 Qed.
